@@ -18,9 +18,10 @@ const (
 	Medium             // 4-10 KiB, crosses the 4096-byte bufio buffer
 	Large              // 70-200 KiB, crosses bufio.Scanner's 64 KiB token limit
 	Multi              // many short records (3-15), for stop-position and record-boundary coverage
+	Huge               // one or two records with a line beyond 1 MiB (thorough tier, rarely)
 )
 
-func (s Size) String() string { return [...]string{"tiny", "small", "medium", "large", "multi"}[s] }
+func (s Size) String() string { return [...]string{"tiny", "small", "medium", "large", "multi", "huge"}[s] }
 
 // Doc is a well-formed text as a list of content lines (no terminators inside).
 type Doc struct {
@@ -59,6 +60,8 @@ func budget(r *core.Rng, sz Size) int {
 		return r.Range(4200, 10000)
 	case Multi:
 		return r.Range(0, 150)
+	case Huge:
+		return r.Range(100, 2000)
 	default:
 		return r.Range(70000, 200000)
 	}
@@ -74,6 +77,8 @@ func nrec(r *core.Rng, sz Size) int {
 		return r.Range(1, 30)
 	case Multi:
 		return r.Range(3, 15)
+	case Huge:
+		return r.Range(1, 2)
 	default:
 		return r.Range(1, 6)
 	}
@@ -112,6 +117,8 @@ func edgeLen(r *core.Rng, sz Size) (int, bool) {
 		if r.Chance(0.6) {
 			return core.Pick(r, []int{65536, 65536, 65536, 131072, 4096 * r.Range(3, 20)}) + r.Range(-3, 3), true
 		}
+	case Huge: // always: a line of 1 MiB (+-3) up to 1.5 MiB
+		return core.Pick(r, []int{1 << 20, 1 << 20, 1<<20 + r.Range(0, 1<<19)}) + r.Range(-3, 3), true
 	}
 	return 0, false
 }
@@ -315,7 +322,7 @@ func genBed(r *core.Rng, sz Size) Doc {
 		if sz == Tiny {
 			f[1], f[2] = strconv.Itoa(r.Intn(10)), strconv.Itoa(r.Intn(10))
 		}
-		if e, ok := edgeLen(r, sz); ok && r.Chance(0.3) {
+		if e, ok := edgeLen(r, sz); ok && (r.Chance(0.3) || sz == Huge && i == 0) {
 			if nf > 3 {
 				if need := e - len(strings.Join(f[:nf], "\t")); need > 0 {
 					f[3] += string(r.Bytes(need, wordAlpha))
@@ -347,6 +354,8 @@ func nwkName(r *core.Rng) string {
 		return "'" + strings.ReplaceAll(string(r.Bytes(r.Range(0, 8), "ab (),:;'_\t")), "'", "''") + "'"
 	case 2:
 		return "''"
+	case 3:
+		return core.Pick(r, []string{"a[b]", "[x]", "n[1", "]", "p[&&NHX:S=1]q"}) // brackets are ordinary name bytes
 	default:
 		return string(r.Bytes(r.Range(1, 6), "abcXYZ019_.-|"))
 	}
@@ -379,7 +388,7 @@ func genNewick(r *core.Rng, sz Size) Doc {
 	switch sz {
 	case Tiny:
 		depth = 1
-	case Multi:
+	case Multi, Huge:
 		depth = 2
 	case Medium:
 		n = r.Range(50, 120)
@@ -393,7 +402,7 @@ func genNewick(r *core.Rng, sz Size) Doc {
 	for i := 0; i < n; i++ {
 		var toks []string
 		nwkTree(r, depth, 12, &toks)
-		if e, ok := edgeLen(r, sz); ok && r.Chance(0.1) {
+		if e, ok := edgeLen(r, sz); ok && (r.Chance(0.1) || sz == Huge && i == 0) {
 			toks = append([]string{"(", "'" + string(r.Bytes(e, "ab (),:;_")) + "'", ")"}, toks...)
 			if len(toks) > 3 && toks[3] != ":" && toks[3] != ";" {
 				toks = toks[:3] // "(name)" followed directly by a name token would not be well-formed
